@@ -230,7 +230,7 @@ def real_case(case):
             y = X @ X.T
         else:
             return {"v": [], "stats": {"evals": 0}}
-    model = M.make(name, **kw)
+    model = M.make(name, _route="ctor" if restore else "used_set_params", **kw)
     Xfit = {"float64": X, "list": X.tolist(), "float32": X.astype(np.float32), "fortran": np.asfortranarray(X)}[form]
     pk = dict(alpha_multiplier=mult, min_features=minf, keep_threshold=keep, restore_best_weights=restore, max_patience=2)
     where = dict(harness="real", model=name, gemini=gemini, alpha=alpha, alpha_multiplier=mult, min_features=minf, keep_threshold=keep,
